@@ -63,7 +63,11 @@ func cmdRun(args []string) int {
 	budget := fs.Int("budget", 0, "wall-clock budget in seconds (0: 600 quick / 2700 thorough)")
 	noEvidence := fs.Bool("no-evidence", false, "do not write the evidence file")
 	verbose := fs.Bool("v", false, "verbose")
+	failFast := fs.Bool("fail-fast", false, "stop at the first violation (mutant regressions only; implies --no-evidence)")
 	fs.Parse(args)
+	if *failFast {
+		*noEvidence = true
+	}
 	if *prop == "" {
 		fmt.Fprintln(os.Stderr, "--prop required")
 		return 2
@@ -114,7 +118,7 @@ func cmdRun(args []string) int {
 	if err := sym.CheckStubTargets(p, sel); err != nil {
 		return inconclusive("harness-does-not-build: " + err.Error())
 	}
-	cfg := &sym.RunConfig{Workers: *workers, Tier: *tier, TimeoutS: *tmo, SolverLog: *slog,
+	cfg := &sym.RunConfig{FailFast: *failFast, Workers: *workers, Tier: *tier, TimeoutS: *tmo, SolverLog: *slog,
 		Deadline: start.Add(time.Duration(*budget) * time.Second), Verbose: *verbose}
 	if mp := os.Getenv("VERIF_MODEL"); mp != "" {
 		var doc sym.ReplayDoc
